@@ -270,6 +270,11 @@ pub fn drive<E: Engine>(engine: &E, args: &Args) -> i32 {
             }
         };
         crate::exec::mark_worker_thread();
+        // a fatal signal during the replay: exit code 5 again (the file exists already)
+        let case_json = serde_json::to_string(&case).unwrap_or_default();
+        crate::crash::install(prop, crate::rt::BUILD, args.seed, "", 1);
+        crate::crash::set_slot(0);
+        crate::crash::publish(0, &case_json);
         let mut env = WorkerEnv { idx: 0, tier: args.tier, scratch: Scratch::new() };
         let mut st = Stats::default();
         return match engine.run_case(&case, &mut st, &mut env) {
@@ -327,6 +332,8 @@ pub fn drive<E: Engine>(engine: &E, args: &Args) -> i32 {
     let random_total = ((engine.random_cases(args.tier) as f64) * args.scale).ceil() as u32;
     let per_worker = random_total.div_ceil(nworkers as u32);
 
+    let _ = std::fs::create_dir_all(args.verif.join("replays"));
+    crate::crash::install(prop, crate::rt::BUILD, args.seed, &format!("{}/replays/{prop}-{}-crash-{}", args.verif.display(), args.seed, std::process::id()), nworkers);
     std::thread::scope(|scope| {
         // watchdog
         scope.spawn(|| {
@@ -358,12 +365,18 @@ pub fn drive<E: Engine>(engine: &E, args: &Args) -> i32 {
             let t_start = Instant::now();
             handles.push(scope.spawn(move || {
                 crate::exec::mark_worker_thread();
+                crate::crash::set_slot(w);
                 let strategy = engine.strategy(args.tier);
                 let mut env = WorkerEnv { idx: w, tier: args.tier, scratch: Scratch::new() };
                 let mut st = Stats::default();
                 st.sample_stride = ((n_exh as u64 + random_total as u64) / (nworkers as u64 * 3)).max(1);
                 let beat = |case: &E::Case| {
-                    *current[w].lock().unwrap() = Some(serde_json::to_string(case).unwrap_or_default());
+                    {
+                        let mut g = current[w].lock().unwrap();
+                        *g = Some(serde_json::to_string(case).unwrap_or_default());
+                        // (the string lives in the slot until the next beat of this worker)
+                        crate::crash::publish(w, g.as_deref().unwrap());
+                    }
                     beats[w].store(t_start.elapsed().as_secs().max(1), Ordering::SeqCst);
                 };
                 // one closure for all three phases
